@@ -181,7 +181,7 @@ def generate_parse_config(ctx):
                 if out.raised:
                     return  # rejected forcing: C16
                 cfg = out.value
-                run.oblige("validate-called-at-construction", SBool(len(validated) == 1 and validated[0] is cfg.met), kind="post",
+                run.oblige("validate-called-at-construction", SBool(len(validated) >= 1 and all(v is cfg.met for v in validated)), kind="post",
                            props={"C16", "C13"})
                 for sec, fn in (("domain", "_parse_domain"), ("met", "_parse_met")):
                     want = ns[fn](raw[sec])
